@@ -239,14 +239,14 @@ def max2d_hypotheses(S, dt):
                 biot_shelf=0 <= K * dz / lam0 <= 1, biot_wall=0 <= Kw * dr / lam0 <= 1)
 
 
-def qe_2d(S, Ttop, t, liquid_stage):
-    """evaporative heat flux per column as the 2D loops compute it (both stages use the ice correlation)"""
+def flux_2d(S, Ttop):
+    """vapour flux per column as the 2D loops compute it (both stages use the ice correlation); the window test is the model's"""
     import ethz_snow.utils as U
     c = S.const
-    if c["configuration"] != "VISF" or not (c["t_vac_start"] * 3600 < t < (c["t_vac_start"] + c["t_vac_duration"]) * 3600):
+    if c["configuration"] != "VISF":
         return np.zeros_like(Ttop)
     p = U.vapour_pressure_solid(Ttop)
-    return -U.vapour_flux(c["kappa"], c["m_water"], c["k_B"], c["p_vac"], p, Ttop, Ttop) * c["Dh_evaporation"]
+    return U.vapour_flux(c["kappa"], c["m_water"], c["k_B"], c["p_vac"], p, Ttop, Ttop)
 
 
 def sn2d_case(S, dt, rng, ncool=6, nsolid=6):
@@ -264,9 +264,9 @@ def sn2d_case(S, dt, rng, ncool=6, nsolid=6):
     if visf:
         inw = [k for k in range(ie) if c["t_vac_start"] * 3600 < t[k + 1] < (c["t_vac_start"] + c["t_vac_duration"]) * 3600]
         ks = sorted(set(ks + inw[:2] + inw[-1:]))
-    cools = ["(%s, %s, %s, %s)" % (glist(T0), fhex(sh[0]), flist(qe_2d(S, T0[-1], 0.0, True)), glist(T[0]))]
+    cools = ["(%s, %s, %s, %s, %s)" % (glist(T0), fhex(sh[0]), fhex(0.0), flist(flux_2d(S, T0[-1])), glist(T[0]))]
     for k in ks:
-        cools.append("(%s, %s, %s, %s)" % (glist(T[k]), fhex(sh[k + 1]), flist(qe_2d(S, T[k][-1], t[k + 1], True)), glist(T[k + 1])))
+        cools.append("(%s, %s, %s, %s, %s)" % (glist(T[k]), fhex(sh[k + 1]), fhex(t[k + 1]), flist(flux_2d(S, T[k][-1])), glist(T[k + 1])))
     ns = T.shape[0] - (ie + 2)
     js = sorted(set([0, 1] + rng.sample(range(ns), min(ns, nsolid)))) if ns > 1 else []
     if visf:
@@ -275,6 +275,7 @@ def sn2d_case(S, dt, rng, ncool=6, nsolid=6):
     solids = []
     for j in js:
         a, b = ie + 1 + j, ie + 2 + j
-        solids.append("(%s, %s, %s, %s, %s, %s, %s)" % (coq_bool(j > 0), glist(T[a]), glist(W[a]), fhex(sh[b]), flist(qe_2d(S, T[a][-1], t[b], False)), glist(T[b]), glist(W[b])))
-    return "(%s, %d%%nat, %d%%nat, %s, %s, %s)" % (p2d_text(S, dt), Nz, Nr, flist(r), coq_list(cools), coq_list(solids)), \
+        solids.append("(%s, %s, %s, %s, %s, %s, %s, %s)" % (coq_bool(j > 0), glist(T[a]), glist(W[a]), fhex(sh[b]), fhex(t[b]), flist(flux_2d(S, T[a][-1])), glist(T[b]), glist(W[b])))
+    ts, td, dHe = (c["t_vac_start"], c["t_vac_duration"], c["Dh_evaporation"]) if visf else (0.0, 0.0, 0.0)
+    return "(%s, %d%%nat, %d%%nat, %s, %s, %s, %s, %s, %s, %s)" % (p2d_text(S, dt), Nz, Nr, flist(r), coq_bool(visf), fhex(ts), fhex(td), fhex(dHe), coq_list(cools), coq_list(solids)), \
         dict(i_end=ie, cooling_steps_checked=len(cools), solid_steps_checked=len(solids))
